@@ -42,11 +42,12 @@ def inputs(name, i):
     if name == 'dti_a':
         if i == 0:      # pyramid of an 8x8 image, J=2
             return {'yl': _arr((1, 1, 4, 4), 1, dt), 'yh': [_arr((1, 1, 6, 4, 4, 2), 2, dt), _arr((1, 1, 6, 2, 2, 2), 3, dt)]}
-        return {'yl': _arr((2, 2, 12, 10), 4, dt), 'yh': [_arr((2, 2, 6, 6, 5, 2), 5, dt)]}                  # 12x10 image, J=1
+        # 8x8 image, J=3, level 2 absent (the forward's 0-dim skip placeholder) - the caller's list must come back untouched
+        return {'yl': _arr((2, 2, 2, 2), 4, dt), 'yh': [_arr((2, 2, 6, 4, 4, 2), 5, dt), 'placeholder', _arr((2, 2, 6, 1, 1, 2), 6, dt)]}
     if name == 'idwt_per':
         if i == 0:
             return {'yl': _arr((1, 1, 2, 2), 1, dt), 'yh': [_arr((1, 1, 3, 4, 4), 2, dt), _arr((1, 1, 3, 2, 2), 3, dt)]}
-        return {'yl': _arr((2, 2, 3, 5), 4, dt), 'yh': [_arr((2, 2, 3, 3, 5), 5, dt)]}
+        return {'yl': _arr((2, 2, 2, 3), 4, dt), 'yh': [None, _arr((2, 2, 3, 2, 3), 5, dt)]}              # 8x12 image, J=2, finest level None
     raise KeyError(name)
 
 
@@ -95,8 +96,8 @@ def call(mod, name, i, gradmode):
         arg_struct = x
     else:
         yl = torch.tensor(d['yl'], requires_grad=g)
-        yh = [torch.tensor(h, requires_grad=g) for h in d['yh']]
-        leaves = [yl] + yh
+        yh = [None if h is None else (yl.new_zeros([]) if isinstance(h, str) else torch.tensor(h, requires_grad=g)) for h in d['yh']]
+        leaves = [yl] + [h for h in yh if h is not None and h.dim() > 0]
         arg_struct = (yl, yh)
     before = digest(arg_struct)
     if g:
